@@ -1,6 +1,9 @@
 package main
 
 import (
+	"sort"
+	"strconv"
+
 	"encoding/json"
 	"fmt"
 	"strings"
@@ -89,7 +92,12 @@ func packsOnChain(repo repository.RepoData, ref string) ([]any, error) {
 				if err != nil {
 					return nil, err
 				}
-				// entries are file0, file1, … (git sorts names: file0 file1 … file10 sorts oddly; we have <= 9)
+				// entries are file0, file1, …; git sorts names as strings (file10 < file2): order by number
+				sort.SliceStable(sub, func(i, j int) bool {
+					a, _ := strconv.Atoi(strings.TrimPrefix(sub[i].Name, "file"))
+					b, _ := strconv.Atoi(strings.TrimPrefix(sub[j].Name, "file"))
+					return a < b
+				})
 				for _, se := range sub {
 					files = append(files, string(se.Hash))
 				}
@@ -131,6 +139,7 @@ func diffViews(a, b []opView) string {
 
 func runC04(c *runCtx) {
 	defer cleanupScratch()
+	c04Identities(c)
 	N := c.pick(160, 2500)
 	for i := 0; i < N; i++ {
 		r := c.rng.fork()
@@ -255,3 +264,119 @@ func runC04(c *runCtx) {
 }
 
 var _ = entity.Id("")
+
+// ---- identities: an identity built through the editing API (any order of Id(), SetMetadata,
+// Mutate, Commit) keeps the id it showed, reads back with the same versions, and its id is the
+// hash of its first version as stored.
+
+type idenView struct {
+	Name, Email, Login, Avatar string
+	Imm, Mut                   string
+	Versions                   int
+}
+
+func idenViewOf(i *identity.Identity) idenView {
+	return idenView{i.Name(), i.Email(), i.Login(), i.AvatarUrl(), mustJSON(i.ImmutableMetadata()), mustJSON(i.MutableMetadata()), len(i.LastModificationLamports())}
+}
+
+func c04Identities(c *runCtx) {
+	N := c.pick(60, 600)
+	for n := 0; n < N; n++ {
+		r := c.rng.fork()
+		var repo repository.TestedRepo
+		if n%4 == 3 {
+			repo, _ = newGoGit("c04i", false)
+		} else {
+			repo = newMock()
+		}
+		name := pickOne(r, []string{"René Descartes", "alice", "名前", "a b"})
+		iden, err := identity.NewIdentityFull(repo, name, pickOne(r, []string{"a@b.c", "", "é@ü.de"}), pickOne(r, []string{"", "login"}), pickOne(r, []string{"", "https://example.com/a.png"}), nil)
+		if err != nil {
+			panic(err)
+		}
+		var shown []entity.Id // every id the identity has shown so far
+		var trace []string
+		steps := r.rangeInt(1, 8)
+		committed := false
+		for k := 0; k < steps; k++ {
+			switch r.intn(5) {
+			case 0:
+				shown = append(shown, iden.Id())
+				trace = append(trace, "Id")
+			case 1:
+				iden.SetMetadata(pickOne(r, mdKeyPool), pickOne(r, mdValPool))
+				trace = append(trace, "SetMetadata")
+			case 2:
+				nn := pickOne(r, []string{"bob", "ünï", name})
+				if err := iden.Mutate(repo, func(m *identity.Mutator) { m.Name = nn }); err != nil {
+					panic(err)
+				}
+				trace = append(trace, "Mutate")
+			default:
+				if iden.NeedCommit() {
+					if err := iden.Commit(repo); err != nil {
+						panic(fmt.Sprintf("identity commit (%v): %v", trace, err))
+					}
+					committed = true
+					shown = append(shown, iden.Id())
+					trace = append(trace, "Commit")
+				}
+			}
+		}
+		if iden.NeedCommit() {
+			if err := iden.Commit(repo); err != nil {
+				panic(fmt.Sprintf("identity commit (%v): %v", trace, err))
+			}
+			committed = true
+			trace = append(trace, "Commit")
+		}
+		_ = committed
+		shown = append(shown, iden.Id())
+		c.count("identity-trace-len=" + fmt.Sprint(min(len(trace), 9)))
+		c.nontrivial("iden|" + strings.Join(trace, ","))
+		c.context("identity API sequence " + strings.Join(trace, ","))
+		for _, s := range shown {
+			if s != shown[0] {
+				c.violation(-1, "C04/identity-id-changed", fmt.Sprintf("an identity showed id %s and later %s (sequence %s)", shown[0].Human(), s.Human(), strings.Join(trace, ",")), map[string]any{"trace": trace})
+				break
+			}
+		}
+		id := iden.Id()
+		got, err := identity.ReadLocal(repo, id)
+		if err != nil {
+			c.violation(-1, "C04/identity-unreadable", fmt.Sprintf("committed identity cannot be read back under its id (sequence %s): %v", strings.Join(trace, ","), err), map[string]any{"trace": trace})
+			continue
+		}
+		if got.Id() != id {
+			c.violation(-1, "C04/identity-id-changed", "the identity read back has another id", map[string]any{"trace": trace})
+		}
+		if a, b := idenViewOf(iden), idenViewOf(got); a != b {
+			c.violation(-1, "C04/identity-roundtrip", fmt.Sprintf("identity read back differs: %+v vs %+v (sequence %s)", a, b, strings.Join(trace, ",")), map[string]any{"trace": trace})
+		}
+		if err := got.Validate(); err != nil {
+			c.violation(-1, "C04/identity-invalid-after-read", err.Error(), nil)
+		}
+		// id = hash of the first version blob as stored
+		commits, _ := repo.ListCommits("refs/identities/" + string(id))
+		if len(commits) > 0 {
+			entries, _ := repo.ReadTree(commits[0])
+			if len(entries) == 1 {
+				data, _ := repo.ReadData(entries[0].Hash)
+				if sha256hex(data) != string(id) {
+					c.violation(-1, "C04/identity-id-not-content", "the identity id is not the hash of its first version as stored", map[string]any{"trace": trace})
+				}
+			}
+		}
+		// the id shown before the first commit is what the first ref is created under
+		for _, s := range shown {
+			if ok, _ := repo.RefExist("refs/identities/" + string(s)); !ok {
+				c.violation(-1, "C04/identity-ref-missing", fmt.Sprintf("no ref under the id %s the identity showed (sequence %s)", s.Human(), strings.Join(trace, ",")), nil)
+				break
+			}
+		}
+		if n%4 == 3 {
+			repo.Close()
+			cleanupScratch()
+		}
+	}
+}
